@@ -161,8 +161,9 @@ pub fn encodings(v: &Val) -> (Option<String>, String, usize, usize) {
     }
 }
 
-pub const PALETTE: [&str; 40] = [
+pub const PALETTE: [&str; 46] = [
     "é", "€", "😀", "ß", "İ", "ǰ", "\u{0301}", "ﬁ", "K", "\u{200b}", "٣", "１", // multi-byte / case-mapping / digits
+    "\u{0390}", "\u{03b0}", "ŉ", "ﬃ", "ΐ", "ᾷ", // characters whose upper-casing grows up to threefold
     "=", ";", ":", ",", "[", "]", "(", ")", "{", "}", "\"", "\\", "-", "+", ".", " ", "\n", "\0",
     "0", "9", "1", "e", "E", "N", "n", "T", "G", "x",
 ];
@@ -189,6 +190,10 @@ pub enum Edit {
     Truncate(u16),
     /// replace a whole run of digits by a huge / negative / empty number
     Number(u16, u8),
+    /// the same palette string several times in a row
+    InsertRun(u16, u8, u8),
+    /// n extra well-formed `;key<i>=<i>` pairs with pairwise distinct keys
+    ExtraPairs(u16, u16),
 }
 
 #[derive(Clone, Debug, Hash, PartialEq, Eq, Serialize, Deserialize)]
@@ -201,8 +206,10 @@ pub enum Input {
 fn edit() -> BoxedStrategy<Edit> {
     prop_oneof![
         3 => any::<u16>().prop_map(Edit::Delete),
-        3 => (any::<u16>(), 0u8..40).prop_map(|(p, c)| Edit::Insert(p, c)),
-        4 => (any::<u16>(), 0u8..40).prop_map(|(p, c)| Edit::Subst(p, c)),
+        3 => (any::<u16>(), 0u8..46).prop_map(|(p, c)| Edit::Insert(p, c)),
+        4 => (any::<u16>(), 0u8..46).prop_map(|(p, c)| Edit::Subst(p, c)),
+        2 => (any::<u16>(), 0u8..46, 2u8..=6).prop_map(|(p, c, n)| Edit::InsertRun(p, c, n)),
+        1 => (any::<u16>(), crate::gen::size_class(9)).prop_map(|(p, n)| Edit::ExtraPairs(p, n as u16)),
         2 => (any::<u16>(), 1u8..40).prop_map(|(p, l)| Edit::Dup(p, l)),
         2 => any::<u16>().prop_map(Edit::Truncate),
         2 => (any::<u16>(), 0u8..6).prop_map(|(p, k)| Edit::Number(p, k)),
@@ -242,6 +249,28 @@ pub fn apply_edits(base: &str, edits: &[Edit]) -> String {
                 for (k, ch) in ins.into_iter().enumerate() {
                     cs.insert(i + k, ch);
                 }
+            }
+            Edit::InsertRun(p, c, n) => {
+                let i = pos_of(cs.len(), *p);
+                let ins: Vec<char> = PALETTE[*c as usize % PALETTE.len()].chars().collect();
+                let mut k = i;
+                for _ in 0..*n {
+                    for ch in ins.iter() {
+                        cs.insert(k, *ch);
+                        k += 1;
+                    }
+                }
+            }
+            Edit::ExtraPairs(p, n) => {
+                // at a ';' boundary if there is one after the position, else at the position
+                let start = pos_of(cs.len(), *p);
+                let i = (start..cs.len()).find(|j| cs[*j] == ';').unwrap_or(cs.len());
+                let mut extra = String::new();
+                for k in 0..(*n).min(600) {
+                    extra.push_str(&format!(";x{k}={k}"));
+                }
+                let ex: Vec<char> = extra.chars().collect();
+                cs.splice(i..i, ex);
             }
             Edit::Subst(p, c) => {
                 if !cs.is_empty() {
@@ -285,8 +314,8 @@ pub fn apply_edits(base: &str, edits: &[Edit]) -> String {
         }
     }
     let mut s: String = cs.into_iter().collect();
-    if s.len() > 4096 {
-        let mut cut = 4096;
+    if s.len() > 8192 {
+        let mut cut = 8192;
         while !s.is_char_boundary(cut) {
             cut -= 1;
         }
